@@ -51,6 +51,19 @@ Decode7(s) ==
        IF nl < 1 \/ nl > 30 THEN Bad
        ELSE [ok |-> TRUE, flags |-> 0, N |-> 2 ^ nl, r |-> Fixed(s, 5, 5), p |-> Fixed(s, 10, 5), t |-> 0, g |-> 0, nrom |-> 0, saltstart |-> 15]
 
+\* ---- what yescrypt_kdf accepts (alg-yescrypt-opt.c: "Sanity-check parameters", all before any allocation) ----
+\* d = a decoded parameter record.  crypt never passes a shared ROM, so NROM must be 0; hash upgrades (g) are not supported.
+KdfAccepts(d) ==
+  LET mode == d.flags % 4 IN
+  /\ d.g = 0 /\ d.nrom = 0
+  /\ CASE mode = 0 -> d.flags = 0 /\ d.t = 0                   \* classic scrypt: nothing non-standard
+       [] mode = 1 -> d.flags = 1                               \* YESCRYPT_WORM alone
+       [] mode = 2 -> d.flags = KNOWN_RW                        \* the one supported pwxform flavour
+       [] OTHER -> FALSE
+  /\ d.r >= 1 /\ d.p >= 1 /\ d.N > 3
+  /\ d.r < (1073741824 + d.p - 1) \div d.p                     \* r * p < 2^30, without overflowing TLC's integers
+  /\ (mode = 2 => d.N \div d.p > 3)
+
 \* ---- the smix schedule ---------------------------------------------------
 P2Floor(n) == CHOOSE x \in {2 ^ k : k \in 0..29} : x <= n /\ 2 * x > n
 Even(n) == ((n + 1) \div 2) * 2                  \* round up to even
